@@ -90,6 +90,7 @@ def parseRound (s : String) : Option Round :=
     | ["ok"] => some ⟨acts.reverse, recount, .ok⟩
     | ["err"] => some ⟨acts.reverse, recount, .err⟩
     | ["panic"] => some ⟨acts.reverse, recount, .panic⟩
+    | ["lpanic"] => if recount then none else some ⟨acts.reverse, false, .latePanic⟩
     | "rm" :: r => go r (.rm :: acts) recount
     | "keep" :: r => go r (.keep :: acts) recount
     | "stash" :: r => go r (.stash :: acts) recount
